@@ -1,5 +1,5 @@
 import AgModel.Model.Node
-import AgModel.Props.C05
+import AgModel.Proofs.VotorExt
 import AgModel.Proofs.PoolS2N
 /-!
 Cross-component panic-freedom (C10): the pool only ever announces `ParentReady` for the first slot of a window,
